@@ -1354,7 +1354,8 @@ func (ctx Ctx) stmtsEndWithReturn(ss []ast.Stmt) bool {
 }
 
 // scopedStmtShadows reports whether s is a block or a loop that declares a
-// variable whose name hides a local variable visible where s starts.
+// variable whose name hides a local variable (or a function: the one being
+// translated is bound by its recursion binder) visible where s starts.
 //
 // The bindings of a block or of a loop variable are printed as a let without
 // delimiters, so when more statements follow they extend over them; this only
@@ -1377,6 +1378,11 @@ func (ctx Ctx) scopedStmtShadows(s ast.Stmt) bool {
 		}
 		_, outer := obj.Parent().LookupParent(id.Name, s.Pos())
 		if v, ok := outer.(*types.Var); ok && v.Pkg() != nil && v.Parent() != v.Pkg().Scope() {
+			shadows = true
+		}
+		if _, ok := outer.(*types.Func); ok {
+			// the function being translated is a local binding too (its
+			// recursion binder); a call of it may follow
 			shadows = true
 		}
 		return true
